@@ -617,6 +617,34 @@ example :
       W.num? (W.rt3s.storage.getGlobal m.name) = some 2) :=
   ⟨by decide, by decide, W.rt3s.globalsMeta[0]'(by decide), List.getElem_mem _, by decide, by decide⟩
 
+/-! ## Initialiser expressions of program variables -/
+
+/-- **Initialiser expressions are evaluated over the storage the instance is created in.**
+`create_program_instance` gives a program variable declared `v : T := e` (`e` an expression over
+globals and typed literals) the value of `e` over the globals of the storage it is CALLED ON,
+coerced to `T`.  `Runtime::restart` calls it in its fourth loop (`recreatePrograms`) on the storage
+its third loop (`resetGlobals`) produced, and the build calls it after `apply_globals`: the
+"declared initial value" a warm or cold restart gives such a variable is `e` over the
+RE-INITIALISED globals (retained ones at their kept value), and a cold restart evaluates it over
+the same global values as a fresh build.  Proved for one instance creation; that every restart
+and every cold-vs-fresh pair agrees on such variables is checked by the correspondence run and the
+oracle (`warm-rule`, `cold-vars`, twin), not proved (`c09_cold_fresh_partial` is guarded to
+constant initialisers by `PlainInits`). -/
+theorem c09_expr_init_reads_creation_storage (fbs : List FbDef) (s s' : Storage) (p : ProgDef)
+    (id : Nat) (h : createProgramInstance fbs s p = .ok (s', id))
+    (hnd : (p.vars.map (·.name)).Nodup) (d : VarDef) (hd : d ∈ p.vars) (ty : Nat) (e : IExpr)
+    (hi : d.init = .expr ty e) (hc : e.closed = true) :
+    ∃ k, e.eval s 0 = some k ∧ s'.getInstVar id d.name = some (.num ty k) :=
+  createProgramInstance_expr fbs s s' p id h hnd d hd ty e hi hc
+
+/-- Non-vacuity: `limit : INT := setpoint * INT#2` created in a storage where `setpoint = 10`. -/
+example :
+    (match createProgramInstance [] { globals := [(0, .num 3 10)] }
+        { name := 5, vars := [{ name := 1, retain := .unspecified,
+                                init := .expr 3 (.mul (.glob 0) (.lit 2)) }], body := [] } with
+     | .ok (s', id) => (s'.getInstVar id 1).bind Val.numVal?
+     | .error _ => none) = some 20 := by decide
+
 /-! ## Restart requests through the resource thread (`scheduler.rs`) -/
 
 /-- **Histories through the scheduler: no restart request is lost.**  The control endpoint writes
